@@ -46,7 +46,7 @@ def permute(P, rng):
     for s in Q["stmts"]:
         bi = {"rule": 2, "prule": 3, "ad": 2}.get(s[0])
         if bi is not None:
-            pos = [b for b in s[bi] if b[0] == "pos"]
+            pos = [b for b in s[bi] if b[0] != "neg"]
             neg = [b for b in s[bi] if b[0] == "neg"]
             rng.shuffle(pos)
             rng.shuffle(neg)
@@ -87,7 +87,7 @@ def run(ctx):
     K[0] = ctx.budget(5, 20)
     ctx.rule = ("generated programs x seeded permutations of statements / bodies / query and evidence order; a case = one "
                 "program with its permutation seed; non-trivial = at least one query instance and more than one world")
-    return cfgprop.run(ctx, MODULE, THEOREMS, variants, nq=50, nt=500, level="other",
+    return cfgprop.run(ctx, MODULE, THEOREMS, variants, nq=50, nt=500, level="other", gen_kwargs={"disjunction": True},
                        explanation="Specification-level permutation invariance is proved in Lean (see obligation list); "
                                    "the engine is compared with the specification on every permuted run (exploration of the "
                                    "order quantifier, not a proof about the engine).")
